@@ -12,6 +12,18 @@ CHECK_DEADLOCK FALSE
 """
 
 
+MCH = """SPECIFICATION Spec
+CONSTANTS
+  MaxReq = %d
+  ReordersInPlace = %s
+  TrimsAndScansParams = TRUE
+  ProducesFirst = TRUE
+INVARIANTS HistoryFree
+%s
+CHECK_DEADLOCK FALSE
+"""
+
+
 def plans(cases, run):
     n = {"quick": 1500, "thorough": 30000}[run.tier]
     for i, c in enumerate(cases):
@@ -51,12 +63,16 @@ def sig_malformed_q(ev, mis):
 
 FAM = {
     "name": "nego",
-    "mc": {"quick": [("MC_Negotiation", MC % ("quick", "TRUE", "TRUE"), "MC_Negotiation-quick")],
-           "thorough": [("MC_Negotiation", MC % ("thorough", "TRUE", "TRUE"), "MC_Negotiation-thorough")]},
+    "mc": {"quick": [("MC_Negotiation", MC % ("quick", "TRUE", "TRUE"), "MC_Negotiation-quick"),
+                     ("MC_NegoHistory", MCH % (3, "FALSE", "PROPERTIES ProducesUntouched"), "MC_NegoHistory-3")],
+           "thorough": [("MC_Negotiation", MC % ("thorough", "TRUE", "TRUE"), "MC_Negotiation-thorough"),
+                        ("MC_NegoHistory", MCH % (5, "FALSE", "PROPERTIES ProducesUntouched"), "MC_NegoHistory-5")]},
     "mc_must_violate": {t: [("MC_Negotiation", MC % ("quick", "FALSE", "TRUE"), "MC_Negotiation-legacy",
                              "legacy Accept parser (media type not trimmed, only first parameter inspected)"),
                             ("MC_Negotiation", MC % ("quick", "TRUE", "FALSE"), "MC_Negotiation-legacy-fallbacks",
-                             "fall-backs of the entity writer in the old order (whole-header look-up and package default before Produces)")]
+                             "fall-backs of the entity writer in the old order (whole-header look-up and package default before Produces)"),
+                            ("MC_NegoHistory", MCH % (3, "TRUE", ""), "MC_NegoHistory-reorders",
+                             "the entity writer reorders the route's Produces slice in place: a later request is answered differently")]
                         for t in ("quick", "thorough")},
     "driver": "nego",
     "plans": plans,
